@@ -69,6 +69,7 @@ inductive Sig
 
 inductive Entry
   | vVerify | vVerifyBlob | skipVerify | nVerify | nVerifyBlob
+  | vVerifyBlobGenError   -- verifier.VerifyBlob whose blob descriptor generator fails (unreadable blob)
   | userMetadata     -- UserMetadata() of the outcome verifier.Verify returned
   | nilArgs          -- notation.Verify / VerifyBlob with nil verifier / repository / reader
   | parser           -- a parser-facing entry point fed with a malformed document (fuzz cases only)
@@ -179,11 +180,18 @@ def nilArgs (g : Guards) : Obs :=
   if g.nVerifyVerifierNil && g.nVerifyRepoNil && g.nVerifyBlobVerifierNil && g.nVerifyBlobReaderNil
   then failNoOutcome else panic
 
+/-- `verifier.VerifyBlob` with a failing descriptor generator: everything up to the generator is
+as usual; where the signature would have been accepted the failure is reported WITH the outcome -/
+def vVerifyBlobGenError (g : Guards) (i : Input) : Obs :=
+  let o := vVerifyBlob g i
+  if !o.panicked && !o.err && o.outcome == some { hasError := false, hasContent := true } then failWith true else o
+
 def runWith (g : Guards) (i : Input) : Obs :=
   if i.fuzz then { panicked := false, err := false, outcome := none, consistent := true }
   else match i.entry with
     | .vVerify => vVerify g i
     | .vVerifyBlob => vVerifyBlob g i
+    | .vVerifyBlobGenError => vVerifyBlobGenError g i
     | .skipVerify => skipVerify g i
     | .nVerify => nVerify g i
     | .nVerifyBlob => nVerifyBlob g i
@@ -200,6 +208,7 @@ def policySelected (i : Input) : Bool :=
   match i.entry with
   | .vVerify => i.oci == .skip || i.oci == .enforce
   | .vVerifyBlob => i.blob == .skip || i.blob == .enforce
+  | .vVerifyBlobGenError => i.blob == .skip || i.blob == .enforce
   | _ => false
 
 def clauses (i : Input) (o : Obs) : Clauses :=
